@@ -4,6 +4,7 @@ EXTENDS SchemaValid, Json, IOUtils, SequencesExt
 CONSTANT Mode
 Insts == SetToSeq(Instances)
 EmitOut == IF Mode = "schemas" THEN SetToSeq({[schema |-> s] : s \in Schemas})
+           ELSE IF Mode = "defs" THEN SetToSeq({[name |-> n, schema |-> Defs[n]] : n \in DOMAIN Defs})
            ELSE IF Mode = "syms" THEN SetToSeq({[sym |-> x, len |-> SymInfo[x].len, hasb |-> SymInfo[x].hasb] : x \in DOMAIN SymInfo})
            ELSE [i \in 1..Len(Insts) |-> [v |-> Insts[i]]]
 ASSUME ndJsonSerialize(IOEnv.VERIF_VECTORS, EmitOut)
